@@ -61,3 +61,83 @@ def outcome_class(exc) -> str:
     if n in ("TypeError", "AttributeError", "NameError", "IndexError", "UnboundLocalError"):
         return "crash:" + n
     return "exception:" + n
+
+
+def affine_model_class():
+    """A parametric probe block: S(p) = S0 + p*S1 (fresh array per call).  Defined lazily so that
+    lekkersim is imported from /repo first."""
+    L = lk()
+    from copy import deepcopy
+
+    class AffineModel(L.Model):
+        def __init__(self, pin_names, idx, S0, S1, pname="p", default=0.0):
+            self.pin_dic = {L.Pin(p): i for p, i in zip(pin_names, idx)}
+            self.N = len(pin_names)
+            self.S0 = np.array(S0, complex)
+            self.S1 = np.array(S1, complex)
+            self.pname = pname
+            self.param_dic = {pname: default}
+            self.default_params = deepcopy(self.param_dic)
+            self.S = self.S0 + default * self.S1
+            self.update_pins()
+
+        def create_S(self):
+            return self.S0 + self.param_dic[self.pname] * self.S1
+
+        def __str__(self):
+            return f"AffineModel({self.pname}) (id={id(self)})"
+
+    return AffineModel
+
+
+def build_param_solver(pcirc, name=None):
+    """pcirc: circuit whose comps carry S0, S1, param (name) and default; returns (solver, structures)"""
+    L = lk()
+    AM = affine_model_class()
+    sts = []
+    for comp in pcirc["comps"]:
+        n = len(comp["pins"])
+        m = AM(comp["pins"], comp["idx"], gen.mat_np(comp["S0"], n, n), gen.mat_np(comp["S1"], n, n),
+               pname=comp["param"], default=float(comp.get("default", 0)))
+        sts.append(L.Structure(model=m))
+    sol = L.Solver(name=name)
+    for st in sts:
+        sol.add_structure(st)
+    for (a, p, b, q) in pcirc["links"]:
+        sol.connect(sts[a], p, sts[b], q)
+    for (nm, c, p) in pcirc["exposed"]:
+        sol.map_pins({L.Pin(nm): (sts[c], L.Pin(p))})
+    return sol, sts
+
+
+_CLASSES = {}
+
+
+def tunable_mirror_class():
+    """lossless tunable reflector: S(t) = [[r, i*tau], [i*tau, r]], r = 2t/(1+t^2), tau = (1-t^2)/(1+t^2)"""
+    if "tm" in _CLASSES:
+        return _CLASSES["tm"]
+    L = lk()
+    from copy import deepcopy
+
+    class TunableMirror(L.Model):
+        def __init__(self, pin_names, pname="t", default=0.0):
+            self.pin_dic = {L.Pin(pin_names[0]): 0, L.Pin(pin_names[1]): 1}
+            self.N = 2
+            self.pname = pname
+            self.param_dic = {pname: default}
+            self.default_params = deepcopy(self.param_dic)
+            self.S = np.identity(2, complex)
+            self.update_pins()
+
+        def create_S(self):
+            t = self.param_dic[self.pname]
+            r = 2 * t / (1 + t * t)
+            tau = (1 - t * t) / (1 + t * t)
+            return np.array([[r, 1j * tau], [1j * tau, r]], complex)
+
+        def __str__(self):
+            return f"TunableMirror (id={id(self)})"
+
+    _CLASSES["tm"] = TunableMirror
+    return TunableMirror
